@@ -39,7 +39,9 @@ pub broadcast axiom fn ax_bridge_ok()
     ensures #[trigger] bridge_ok::<String, str>();
 pub broadcast axiom fn ax_bridge_ok2()
     ensures #[trigger] bridge_ok::<String, String>();
-pub broadcast group bridge { ax_set_contains_str, ax_sets_differ_str, ax_bridge_ok, ax_bridge_ok2, ax_bkey_str, ax_bkey_string,
+pub broadcast axiom fn ax_to_string_string(s: &String, r: String)
+    ensures #[trigger] vstd::string::to_string_from_display_ensures::<String>(s, r) <==> r == *s;
+pub broadcast group bridge { ax_to_string_string, ax_set_contains_str, ax_sets_differ_str, ax_bridge_ok, ax_bridge_ok2, ax_bkey_str, ax_bkey_string,
     ax_string_of_view, ax_string_ext, ax_contains_str_key, ax_maps_str_key, ax_str_key_removed, ax_key_model }
 
 // ---- std functions vstd has no specification for ----
@@ -108,3 +110,7 @@ pub proof fn lemma_nodup_subset_full(order: Seq<String>, members: Set<String>)
         if members.contains(n) { assert(order.to_set().contains(n)); }
     }
 }
+
+// ---- machine-size fact: a user table cannot hold usize::MAX entries (every entry occupies more than one byte of address space) ----
+pub broadcast axiom fn ax_hashmap_len_bound<V>(m: HashMap<String, V>)
+    ensures #[trigger] m@.len() < usize::MAX;
